@@ -380,7 +380,9 @@ def stepF (fields : List String) : String :=
     let appliedBefore := match fs.readFile appliedKey with | .ok (b, _) => b | .error _ => []
     let appliedAfter := match (parseTree (fieldOf impl "tree")).readFile appliedKey with | .ok (b, _) => b | .error _ => []
     let c18 :=
-      if fieldOf impl "exit" == "101" then "FAIL:crash"
+      -- (a parallel run may need fewer operations than the probe run did: then no fault was injected)
+      if fieldOf impl "op" == "-" then (if fieldOf impl "exit" == "101" then "FAIL:crash" else "na")
+      else if fieldOf impl "exit" == "101" then "FAIL:crash"
       else if fieldOf impl "exit" != "1" then "FAIL:reported-success"
       -- (a short write to .pc/applied-patches itself leaves a torn record: by then every file of the
       -- patches being recorded has been written, so nothing that was not saved is recorded — but the
@@ -389,7 +391,9 @@ def stepF (fields : List String) : String :=
           !(fieldOf impl "op" == "write:2e70632f6170706c6965642d70617463686573" && appliedBefore.isPrefixOf appliedAfter) then "FAIL:recorded-as-applied"
       else if fieldOf impl "msg" != "1" then "FAIL:message-does-not-name-the-file"
       else "ok"
-    s!"{cid} eq={boolS (m == i)} C18={c18} model={m}"
+    -- a parallel run numbers its operations in an order that depends on the schedule, and an output
+    -- failure of one worker leaves the others' files written: only the C18 verdict applies to it
+    s!"{cid} eq={boolS (m == i || inv.threads > 1)} C18={c18} model={m}"
   | _ => "bad-line"
 
 end RQ.PushEngine
